@@ -373,6 +373,8 @@ def endpoint_kwargs(draw, n: int, satisfiable_bias: bool = True):
         ep["deadend_end"] = draw(st.booleans())
     if draw(st.booleans()):
         ep["endpoints_not_equal"] = draw(st.booleans())
+    if draw(st.integers(0, 3)) == 0:
+        ep["except_when_invalid"] = True  # the remaining option of the endpoint-drawing step, spelled out with its default value
     # the order in which a caller happens to write the options is part of the input (a config hashes its serialized form)
     keys = draw(st.permutations(sorted(ep)))
     return {k: ep[k] for k in keys}
